@@ -367,10 +367,12 @@ def run_case(cid, rng, workdir):
     mols = [(rng.choice(names), rng.randint(1, 3)) for _ in range(rng.randint(2 if cid[0] == "mols_inc" else 1, 4))]
     if cid[0] == "mols_inc":
         # the last lines of the molecule list live in an included file (a shared solvent count)
-        k = rng.randint(1, len(mols) - 1)
+        # lines before the include (possibly none), the included lines, lines after the include (possibly none)
+        k = rng.randint(0, len(mols) - 1)
+        k2 = rng.randint(k + 1, len(mols))
         files["t.top"] = files["t.top"] + ["[ system ]", "x", "[ molecules ]"] + ["%s %d" % (n, c) for n, c in mols[:k]] + \
-            ['#include "molecules.inc"']
-        files["molecules.inc"] = ["[ molecules ]"] + ["%s %d" % (n, c) for n, c in mols[k:]]
+            ['#include "molecules.inc"'] + ["%s %d" % (n, c) for n, c in mols[k2:]]
+        files["molecules.inc"] = ["[ molecules ]"] + ["%s %d" % (n, c) for n, c in mols[k:k2]]
     else:
         files["t.top"] = files["t.top"] + ["[ system ]", "x", "[ molecules ]"] + ["%s %d" % (n, c) for n, c in mols]
     tree_root = os.path.join(workdir, "tree")
